@@ -131,13 +131,19 @@ def check_block_signatures(nodes: typing.List[ValidatorDescr], signatures: typin
 
     to_sign = b'pn\x0b\xc5' + blk.root_hash + blk.file_hash  # bytes.fromhex('c50b6e70')[::-1] - magic
     i = 0
+    signed_nodes = set()
     for sig in signatures:
-        node = node_map.get(bytes.fromhex(sig['node_id_short']))
+        node_id_short = bytes.fromhex(sig['node_id_short'])
+        node = node_map.get(node_id_short)
         node: ValidatorDescr
         i += 1
 
         if node is None:
             raise ProofError('cannot find node_id_short in validator list')
+
+        if node_id_short in signed_nodes:  # a validator's weight counts once
+            raise ProofError('duplicate signature of the same validator')
+        signed_nodes.add(node_id_short)
 
         result = verify_sign(public_key=node.public_key.pubkey, signed_message=to_sign, signature=sig['signature'])
 
@@ -146,7 +152,7 @@ def check_block_signatures(nodes: typing.List[ValidatorDescr], signatures: typin
 
         signed_weight += node.weight
 
-    if signed_weight * 3 >= total_weight * 2:  # >= 2/3
+    if signed_weight * 3 > total_weight * 2:  # more than 2/3 (an empty validator set signs nothing)
         return
 
     raise ProofError(f'Block {blk} has not been signed by 2/3 of validators')
